@@ -112,7 +112,12 @@ def run(check):
                   "folder and single-file mode, six languages, >= 12 fresh processes plus thread counts, arrival orders and the same tables "
                   "written in another key order: byte-identical and byte-exact against the model; import mixes, overlapping source "
                   "directories, generic parameter names; the stored witness of the open finding "
-                  "duplicate-type-names-arrival-order" % max_exh)
+                  "duplicate-type-names-arrival-order; single-file destinations that already hold a longer / equally long / shorter / earlier "
+                  "output; folder-mode runs (six languages, Swift with a unit type so that Codable.swift is written, 2-3 settings of the "
+                  "language's typeshare.toml section per workspace) into folders that already hold the same run's output, another setting's "
+                  "output (every ordered pair), two earlier runs' output, empty / longer / cut / altered files of the same names, a mix of "
+                  "those, files of other names, an earlier version's output: every file the run into an empty folder writes has the "
+                  "same bytes afterwards, and the empty-folder output equals the models' text under every setting" % max_exh)
     for t in range(ntrees):
         lang = LANGS[t % 6]
         multi = (t // 6) % 2 == 1
@@ -209,6 +214,8 @@ def run(check):
                                 "options give in a fresh destination" % (lang, prob["state"]), case=prob, impl=prob["file_after_run"],
                                 model=prob["fresh_run"], failing_input=True)
                 break
+    if not check.has_failing():
+        dirty_folder_part(check)
     check.assumptions += ["a schedule is abstracted to an arrival order of per-file results plus hash iteration orders; real races inside ignore/crossbeam are realised only through the collector hook and repeated runs",
                           "the walker delivers every visible *.rs file exactly once (ignore crate, external)"]
 
@@ -858,3 +865,310 @@ def generic_names_part(check):
                 lang, k1, k2, l2.text_diff(o1.get(fn, ""), o2.get(fn, ""))),
                 case={"lang": lang, "files": {rel: render_file(f) for rel, f in merged.items()}}, impl={"a": o1, "b": o2}, failing_input=True)
             return
+
+
+# ------------------------------------------------------------------ folder mode: what the output folder held before the run
+FOLDER_CRATES = ["alpha", "beta-x", "core_types", "zeta", "mid-tier", "b2"]
+FOLDER_SEQ = ["swift", "typescript", "swift", "kotlin", "swift", "scala", "swift", "go", "swift", "python"]
+FOLDER_MAPPED = {"typescript": ["string", "number", "Date"], "kotlin": ["java.time.Instant", "Long", "String"],
+                 "swift": ["Date", "Int64", "String"], "scala": ["java.time.Instant", "Long", "String"],
+                 "go": ["time.Time", "int64", "string"], "python": ["datetime", "int", "str"]}
+FOLDER_UNITS = [("tuple", []), t_path("Option", [("tuple", [])]), t_path("Vec", [("tuple", [])]),
+                t_path("HashMap", [t_path("String"), ("tuple", [])])]
+
+
+def folder_setting(rng, lang):
+    """one setting of the [<lang>] section of typeshare.toml: the keys that show in the output of `lang`"""
+    s = {}
+    tm = {}
+    if rng.random() < 0.7:
+        tm["Stamp"] = rng.choice(FOLDER_MAPPED[lang])
+    if rng.random() < 0.3:
+        tm["Url"] = rng.choice(FOLDER_MAPPED[lang][1:])
+    s["type_mappings"] = tm
+    if lang == "swift":
+        s["default_decorators"] = rng.choice([[], ["Sendable"], ["Sendable", "Identifiable"], ["Equatable", "Hashable"], ["Equatable"]])
+        s["codablevoid_constraints"] = rng.choice([[], ["Equatable"], ["Equatable", "Hashable"], ["Sendable"], ["Hashable", "Sendable", "Equatable"]])
+        s["default_generic_constraints"] = rng.choice([[], [], ["Sendable"]])
+        s["prefix"] = rng.choice(["", "", "Core"])
+    elif lang == "kotlin":
+        s["prefix"] = rng.choice(["", "Kt", "Core"])
+    elif lang == "go":
+        s["uppercase_acronyms"] = rng.choice([[], ["id"], ["id", "url"]])
+        s["no_pointer_slice"] = rng.choice([False, True])
+    return s
+
+
+def folder_settings(rng, lang, m):
+    """m pairwise different settings.  For Swift the second differs from the first in what the helper module Codable.swift is made
+    from (default_decorators or codablevoid_constraints) and in nothing else: the per-crate modules may well be the same"""
+    out = [folder_setting(rng, lang)]
+    key = lambda s: json.dumps(s, sort_keys=True)
+    if lang == "swift":
+        s = json.loads(key(out[0]))
+        which = rng.choice(["default_decorators", "codablevoid_constraints", "both"])
+        for k in ("default_decorators", "codablevoid_constraints"):
+            if which in (k, "both"):
+                while s[k] == out[0][k]:
+                    s[k] = folder_setting(rng, lang)[k]
+        out.append(s)
+    while len(out) < m:
+        s = folder_setting(rng, lang)
+        if key(s) not in [key(x) for x in out]:
+            out.append(s)
+    return out
+
+
+def folder_toml(lang, s, noise_lang=None):
+    lines = ["[%s]" % lang]
+    lines += ["%s = %s" % (k, json.dumps(v)) for k, v in s.items() if k != "type_mappings"]
+    if s.get("type_mappings"):
+        lines += ["", "[%s.type_mappings]" % lang] + ["%s = %s" % (k, json.dumps(v)) for k, v in s["type_mappings"].items()]
+    if noise_lang:
+        lines += ["", "[%s.type_mappings]" % noise_lang, 'Stamp = "NotThisLanguage"']
+    return "\n".join(lines) + "\n"
+
+
+def folder_workspace(rng, k, with_unit):
+    """2-3 crates of 1-2 files each (random structs, enums, aliases; disjoint type names) plus one probe struct whose fields show the
+    settings (a remappable foreign type, acronym words) and - `with_unit` - mention Rust's unit type in 1-3 shapes, which makes the
+    Swift back end write its helper module Codable.swift next to the per-crate modules"""
+    ts = [m_path("typeshare")]
+    crates = rng.sample(FOLDER_CRATES, rng.randint(2, 3))
+    slots = [(c, i) for c in crates for i in range(rng.choice([1, 1, 2]))]
+    pool = TYPE_WORDS + [w + "Two" for w in TYPE_WORDS]
+    words = rng.sample(pool, 2 * len(slots))
+    g = Gen(rng, p_serialized_as=0.0, p_decorators=0.05, p_cfg=0.0, p_const=0.0, p_mod=0.1, p_noise=0.1)
+    files = []
+    for j, (c, i) in enumerate(slots):
+        mine = words[2 * j:2 * j + 2]
+        f = g.file(names=mine[:rng.randint(1, 2)], extern_types=rng.sample([w for w in words if w not in mine], 1))
+        files.append(dict(rel="%s/src/%s" % (c, ["lib.rs", "more.rs"][i]), crate=c.replace("-", "_"), file=f))
+    fields = [field([], "at", t_path("Stamp")), field([], "user_id", t_path("u32")), field([], "home_url", t_path("Option", [t_path("Url")]))]
+    units = rng.sample(FOLDER_UNITS, rng.randint(1, 3)) if with_unit else []
+    fields += [field([], "nothing%d" % n, u) for n, u in enumerate(units)]
+    rng.shuffle(fields)
+    probe = {"kind": "struct", "attrs": list(ts), "ident": "FolderProbe%d" % k, "generics": [], "fields": ("named", fields)}
+    rng.choice(files)["file"]["items"].append(probe)
+    return files, g, [render_type(u) for u in units]
+
+
+def read_folder(d):
+    out = {}
+    for root, _, fns in os.walk(d):
+        for fn in fns:
+            p = os.path.join(root, fn)
+            out[os.path.relpath(p, d)] = open(p, "rb").read()
+    return out
+
+
+def write_folder(d, content):
+    os.makedirs(d, exist_ok=True)
+    for rel, b in content.items():
+        p = os.path.join(d, rel)
+        os.makedirs(os.path.dirname(p), exist_ok=True)
+        with open(p, "wb") as f:
+            f.write(b)
+
+
+def dirty_folder_part(check):
+    """Dimension: *what the output folder of a multi-file run (-d) held before the run*.  Workspaces of 2-3 crates, all six languages
+    (Swift every other case, always with a type that mentions `()`, so that the helper module Codable.swift is part of the output),
+    each under 2-3 different settings of the language's section of typeshare.toml (Swift: default_decorators / codablevoid_constraints
+    / default_generic_constraints / prefix / type_mappings; the others: type_mappings, prefix, uppercase_acronyms, no_pointer_slice).
+    Reference = the run into an empty folder.  The same command is then run into folders that already hold: the output of the same
+    run; the output of the run under each *other* setting (every ordered pair) and of two other runs in a row; empty files of the
+    same names; the reference files followed by more text, cut in the middle, with one byte changed; a random mix of those per file;
+    only files of other names (sub-directory, hidden file, a stale module of another crate); the output of an earlier version of the
+    sources.  Demanded (the property itself, on the files the binary left): the run succeeds and *every file the reference run wrote*
+    has exactly the reference's bytes - for fixed sources, configuration and options the bytes do not depend on the folder's history.
+    (Files the run is not responsible for - stale modules - are C17's business and are not looked at.)  The reference of every
+    setting is also compared byte for byte with the Lean pipeline + back-end models under that setting."""
+    from c14 import file_name
+    rng = check.rng
+    ncases = 30 if check.thorough else 10
+    for w in range(ncases):
+        lang = FOLDER_SEQ[w % len(FOLDER_SEQ)]
+        with_unit = lang == "swift" or w % 4 == 1
+        # the random items may hold something the back end rejects (`OffsetDateTime` outside TypeScript, ...): such a workspace says
+        # nothing about folders and is drawn again
+        for attempt in range(12):
+            files, g, units = folder_workspace(rng, w, with_unit)
+            with Scratch() as sc:
+                for f in files:
+                    sc.write("ws/" + f["rel"], render_file(f["file"]))
+                os.makedirs(sc.path("probe"))
+                if run_cli(["--lang", lang, "-d", sc.path("probe")] + lang_args(lang) + [sc.path("ws")], cwd=sc.dir)["rc"] == 0:
+                    break
+            check.count("dirty-folder: workspace rejected by the back end, drawn again")
+        m = 3 if (check.thorough or w % 2 == 0) else 2
+        settings = folder_settings(rng, lang, m)
+        noise = rng.choice([None, None] + [L for L in LANGS if L != lang])
+        tomls = [folder_toml(lang, s, noise) for s in settings]
+        srcs = {f["rel"]: render_file(f["file"]) for f in files}
+        # an earlier version of the program: one more type in one module, one more crate, (sometimes) no unit type yet
+        earlier = dict(srcs)
+        rel0 = rng.choice(sorted(srcs))
+        earlier[rel0] += "\n#[typeshare]\npub struct LegacyRecord%d { pub old_field_one: String, pub old_field_two: Vec<u32>, pub old_field_three: Option<bool> }\n" % w
+        earlier["legacy-zz/src/lib.rs"] = "#[typeshare]\npub enum LegacyMode%d { Fast, Slow }\n" % w
+        if w % 3 == 0:
+            earlier = {rel: re.sub(r"(?m)^\s*(pub )?nothing\d+: .*?,?\n", "", t) if "FolderProbe" in t else t for rel, t in earlier.items()}
+        args = lambda j: ["--lang", lang, "-d", "<folder>", "-c", "typeshare.toml"] + lang_args(lang) + ["ws"]
+        with Scratch() as sc:
+            for rel, text in srcs.items():
+                sc.write("ws/" + rel, text)
+            for rel, text in earlier.items():
+                sc.write("ws_earlier/" + rel, text)
+            for j, t in enumerate(tomls):
+                sc.write("conf%d/typeshare.toml" % j, t)
+            ndest = [0]
+
+            def go(j, dest=None, ws="ws"):
+                """the run under setting j into `dest` (a fresh, empty folder when None); (exit status, stderr, files in the folder)"""
+                if dest is None:
+                    ndest[0] += 1
+                    dest = sc.path("dest%d" % ndest[0])
+                    os.makedirs(dest)
+                r = run_cli(["--lang", lang, "-d", dest, "-c", sc.path("conf%d/typeshare.toml" % j)] + lang_args(lang) + [sc.path(ws)], cwd=sc.dir)
+                return r, read_folder(dest)
+
+            def fresh(content=None):
+                ndest[0] += 1
+                dest = sc.path("dest%d" % ndest[0])
+                os.makedirs(dest)
+                write_folder(dest, content or {})
+                return dest
+
+            refs = [go(j) for j in range(m)]
+            check.count("dirty-folder-%s" % lang)
+            if any(r["rc"] != 0 or not o for r, o in refs):
+                check.count("dirty-folder: generation error in an empty folder (case skipped)")
+                continue
+            ref = [o for _, o in refs]
+            helper = "Codable.swift" if lang == "swift" else None
+            if helper:
+                check.count("dirty-folder: swift helper module %s" % ("written" if helper in ref[0] else "absent"))
+                if len({o.get(helper) for o in ref}) > 1:
+                    check.count("dirty-folder: swift helper module differs between the settings of the case")
+            if len({digest({k_: v.decode("utf-8", "replace") for k_, v in o.items()}) for o in ref}) == m:
+                check.count("dirty-folder: all settings of the case give different folders")
+            for u in units:
+                check.count("dirty-folder: unit type as %s" % u)
+
+            # ---- the folder states: (name, target setting, files the folder holds before the run)
+            def states_for(j):
+                R = ref[j]
+                mid = lambda b: len(b) // 2
+                others = [i for i in range(m) if i != j]
+                out = []
+                for i in others:
+                    out.append(("the output of the run under another setting (#%d)" % i, lambda i=i: fresh(ref[i]), {"other typeshare.toml": tomls[i]}))
+                if full_for == "all" or full_for == j:
+                    def twice():
+                        d = fresh()
+                        go(j, d)
+                        return d
+                    out.append(("the output of the same run", twice, {}))
+                    out.append(("empty files of the same names", lambda: fresh({fn: b"" for fn in R}), {}))
+                    out.append(("the same files followed by more text", lambda: fresh({fn: b + b"\n// left over from an earlier, longer output\nstale stale stale\n" for fn, b in R.items()}), {}))
+                    out.append(("the same files cut in the middle", lambda: fresh({fn: b[:mid(b)] for fn, b in R.items()}), {}))
+                    out.append(("the same files with one byte changed", lambda: fresh(
+                        {fn: b[:mid(b)] + (b"#" if b[mid(b):mid(b) + 1] != b"#" else b"%") + b[mid(b) + 1:] for fn, b in R.items()}), {}))
+                    extras = {"Legacy_old.%s" % EXT[lang]: b"stale module of a crate that is gone\n", "notes.txt": b"hand-written\n", ".hidden": b"",
+                              "sub/Old.%s" % EXT[lang]: b"old\n"}
+                    if "Codable.swift" not in R:
+                        extras["Codable.swift"] = b"public struct CodableVoid: Codable {}\n"
+                    out.append(("only files of other names", lambda: fresh(extras), {}))
+
+                    def mixed():
+                        o = ref[rng.choice(others)]
+                        pick = {}
+                        for fn, b in sorted(R.items()):
+                            c = rng.choice(["absent", "empty", "other", "longer", "same", "prefix"])
+                            if c == "other" and fn not in o:
+                                c = "empty"
+                            if c != "absent":
+                                pick[fn] = {"empty": b"", "other": o.get(fn), "longer": b + b"// more\n", "same": b, "prefix": b[:mid(b)]}[c]
+                        pick.update(extras)
+                        return fresh(pick)
+                    out.append(("a mix per file of: nothing, an empty file, another setting's output, a longer, a shorter, the same file; plus files of other names", mixed, {}))
+
+                    def after_earlier():
+                        d = fresh()
+                        go(j, d, ws="ws_earlier")
+                        return d
+                    out.append(("the output of the same command over an earlier version of the sources", after_earlier, {"earlier sources": earlier}))
+
+                    def history():
+                        d = fresh()
+                        seq = [rng.choice(others), rng.choice(others + [j])]
+                        for i in seq:
+                            go(i, d)
+                        return d
+                    out.append(("the output of two earlier runs in a row under other settings", history, {}))
+                return out
+
+            full_for = "all" if check.thorough else rng.randrange(m)
+            for j in range(m):
+                for name, build, more in states_for(j):
+                    dest = build()
+                    before = read_folder(dest)
+                    r, after = go(j, dest)
+                    check.saw(("dirty-folder", w, j, name), nontrivial=True)
+                    check.count("dirty-folder state: " + re.sub(r" \(#\d+\)", "", name))
+                    bad = None
+                    if r["rc"] != 0:
+                        bad = ("<exit status>", "the run fails (exit %s: %s), although the same command succeeds in an empty folder" % (r["rc"], (r["err"] or "").strip()[-300:]))
+                    else:
+                        for fn in sorted(ref[j]):
+                            if after.get(fn) != ref[j][fn]:
+                                got = after.get(fn)
+                                bad = (fn, "the file %s %s" % (fn, "is missing after the run" if got is None else
+                                       "is not the file the run into an empty folder writes (%s)" % run_diff(got.decode("utf-8", "replace"), ref[j][fn].decode("utf-8", "replace"))))
+                                break
+                    if bad:
+                        fn, text = bad
+                        dec = lambda b: None if b is None else b.decode("utf-8", "replace")[-2500:]
+                        check.violation("%s folder mode (-d): for the same sources, the same typeshare.toml and the same options the bytes the run "
+                                        "leaves depend on what the output folder held before: %s.  The folder held %s" % (lang, text, name),
+                                        case=dict({"lang": lang, "args": args(j), "files": srcs, "typeshare.toml": tomls[j],
+                                                   "setting": settings[j], "folder_held": name,
+                                                   "folder_before_the_run": {f: dec(b) for f, b in sorted(before.items())},
+                                                   "differing_file": fn,
+                                                   "replay": "write `files` under ws/ and typeshare.toml, fill <folder> with `folder_before_the_run`, run typeshare "
+                                                             "with `args`; run the same command with an empty <folder>; compare the files the second run wrote"},
+                                                  **more),
+                                        impl={"after_the_run": dec(after.get(fn)), "folder_after_the_run": sorted(after)},
+                                        model={"run_into_an_empty_folder": dec(ref[j].get(fn))}, failing_input=True)
+                        return
+
+            # ---- the tie: the models' text for every setting of the case
+            if lang in MODELLED:
+                jobs = [{"crate": f["crate"], "file_name": file_name(lang, f["crate"]), "path": sc.path("ws/" + f["rel"]), "file": f["file"]}
+                        for f in sorted(files, key=lambda f: f["rel"])]
+                names = set().union(*[l2.names_of(f["file"]) for f in files])
+                reqs = []
+                for s in settings:
+                    cfg = dict(s, package="proto" if lang == "go" else "com.example", version_header=True)
+                    reqs.append(l2.requests(lang, cfg, jobs, g, multi_file=True)[0])
+                for j, ma in enumerate(model(reqs, names=names if lang == "python" else None)):
+                    first = {fn: b.decode("utf-8", "replace") for fn, b in ref[j].items()}
+                    mtexts = dict(ma.get("ok") or {})
+                    itexts = {f["crate"]: first[file_name(lang, f["crate"])] for f in files if file_name(lang, f["crate"]) in first}
+                    if "Codable.swift" in first:
+                        itexts["<post>/Codable.swift"] = first["Codable.swift"]
+                    if "ok" in ma and mtexts == itexts:
+                        check.count("dirty-folder: the reference folder equals the models' text")
+                    else:
+                        if l2.norm(ma) == {"err": "format"}:
+                            continue
+                        key = next((c for c in sorted(set(mtexts) | set(itexts)) if mtexts.get(c) != itexts.get(c)), None)
+                        check.violation("the binary's %s folder output (into an empty folder) under the setting %s differs from the model's%s" % (
+                                            lang, json.dumps(settings[j], sort_keys=True),
+                                            ": module %s: %s" % (key, l2.text_diff(mtexts.get(key, ""), itexts.get(key, ""))) if key else
+                                            ": the model answers %s" % json.dumps(ma)[:200]),
+                                        case={"lang": lang, "files": srcs, "typeshare.toml": tomls[j], "args": args(j)}, impl=itexts, model=ma,
+                                        failing_input=False, broken="correspondence L3 multi-file pipeline under the settings of typeshare.toml (theorems TsV.C06.C06_multi*)")
+                        return
+        if len(check.samples) < 9:
+            check.sample({"lang": lang, "dirty_folder_settings": settings, "files": sorted(srcs), "unit_type_as": units})
